@@ -359,3 +359,31 @@ Proof.
   unfold sink_view. rewrite <- Hp, !map_length, map_map. f_equal. apply map_ext. intros [[p i] m]. cbn.
   rewrite (copy_faithful cfg amb m Hc). reflexivity.
 Qed.
+
+(* 6. handlers that render the message's time stamp on the logger thread (PatternFormatter %{time process} / %{time boot}) *)
+Lemma render_rel_obs fmt now now' m m' : obs m = obs m' -> render_rel TSMessage fmt now m = render_rel TSMessage fmt now' m'.
+Proof. intros H. unfold render_rel. f_equal. exact (f_equal o_steady H). Qed.
+Lemma rendered_from_message fmt clk clk' l l' : map obs l = map obs l' -> forall k k',
+  rendered_from TSMessage fmt clk k l = rendered_from TSMessage fmt clk' k' l'.
+Proof.
+  revert l'. induction l as [|m r IH]; intros [|m' r'] H k k'; try discriminate H; [reflexivity|].
+  cbn [map] in H. assert (H1 : obs m = obs m') by congruence. assert (H2 : map obs r = map obs r') by congruence.
+  cbn [rendered_from]. f_equal; [apply render_rel_obs; exact H1|apply IH; exact H2].
+Qed.
+(* the text a sink behind such a formatter receives at quiescence does not depend on WHEN the logger thread ran the
+   formatter ([clk_worker], arbitrary) : it is the text the synchronous run (formatter run inside the logging call, at
+   [clk_caller]) produces for the same messages in post order *)
+Theorem rendered_time_async_equals_sync cfg amb fmt clk_worker clk_caller s :
+  copy_ok cfg = true -> reach (copy_msg_with cfg amb) s -> quiescent s ->
+  rendered_from TSMessage fmt clk_worker 0 (map snd (slog s)) = rendered_from TSMessage fmt clk_caller 0 (map snd (posted s)).
+Proof.
+  intros Hc R [Eq Ei]. destruct (queue_inv _ s R) as [_ Hp]. rewrite Eq, Ei in Hp. cbn in Hp. rewrite app_nil_r in Hp.
+  apply rendered_from_message. rewrite <- Hp, !map_map. apply map_ext. intros [[p i] m]. cbn.
+  apply (copy_faithful cfg amb m Hc).
+Qed.
+(* ... and a formatter that reads the clock when it runs is refuted: one message, rendered on the worker at a later
+   clock value than the call *)
+Theorem rendered_time_from_clock_refuted cfg amb m :
+  exists fmt clk_worker clk_caller,
+    rendered_from TSClock fmt clk_worker 0 [copy_msg_with cfg amb m] <> rendered_from TSClock fmt clk_caller 0 [m].
+Proof. exists (fun b => b), (fun _ => [1]), (fun _ => [0]). cbn. discriminate. Qed.
